@@ -140,11 +140,90 @@ func calleeName(c *ssa.CallCommon) string {
 	}
 	switch f := c.Value.(type) {
 	case *ssa.Function:
+		if o := f.Origin(); o != nil {
+			return o.String() // an instantiation of a generic function is named after the generic function
+		}
 		return f.String()
 	case *ssa.Builtin:
 		return "builtin:" + f.Name()
 	}
 	return ""
+}
+
+// originOf returns the called function, or for an instantiation the generic function it instantiates (whose
+// package is known; an instance has none).
+func originOf(v ssa.Value) (*ssa.Function, bool) {
+	f, ok := v.(*ssa.Function)
+	if !ok {
+		return nil, false
+	}
+	if o := f.Origin(); o != nil {
+		return o, true
+	}
+	return f, true
+}
+
+// fieldNodes maps field index -> node of the field address, for a struct value loaded from a local or global cell.
+func fieldNodes(b *builder, v ssa.Value) map[int]int {
+	out := map[int]int{}
+	u, ok := v.(*ssa.UnOp)
+	if !ok || u.Op != token.MUL {
+		return out
+	}
+	refs := u.X.Referrers()
+	if refs == nil {
+		return out
+	}
+	for _, r := range *refs {
+		if fa, ok := r.(*ssa.FieldAddr); ok {
+			out[fa.Field] = b.val(fa)
+		}
+	}
+	return out
+}
+
+// unfoldedXor finds x^y (both non-constant) from which v is computed by bitwise / conversion steps only.
+func unfoldedXor(v ssa.Value, depth int) *ssa.BinOp {
+	if depth > 6 {
+		return nil
+	}
+	switch t := v.(type) {
+	case *ssa.BinOp:
+		if t.Op == token.XOR && !isConst(t.X) && !isConst(t.Y) {
+			return t
+		}
+		switch t.Op {
+		case token.OR, token.AND, token.XOR, token.SHL, token.SHR, token.ADD, token.SUB:
+			if r := unfoldedXor(t.X, depth+1); r != nil {
+				return r
+			}
+			return unfoldedXor(t.Y, depth+1)
+		}
+	case *ssa.Convert:
+		return unfoldedXor(t.X, depth+1)
+	case *ssa.ChangeType:
+		return unfoldedXor(t.X, depth+1)
+	}
+	return nil
+}
+
+// inLoop reports whether the block can reach itself.
+func inLoop(blk *ssa.BasicBlock) bool {
+	seen := map[*ssa.BasicBlock]bool{}
+	stack := append([]*ssa.BasicBlock{}, blk.Succs...)
+	for len(stack) > 0 {
+		n := stack[len(stack)-1]
+		stack = stack[:len(stack)-1]
+		if n == blk {
+			return true
+		}
+		if seen[n] {
+			continue
+		}
+		seen[n] = true
+		stack = append(stack, n.Succs...)
+	}
+	return false
 }
 
 func isTextType(t types.Type) bool {
@@ -216,6 +295,26 @@ func (b *builder) instr(fn *ssa.Function, ins ssa.Instruction) {
 		case token.EQL, token.NEQ, token.LSS, token.LEQ, token.GTR, token.GEQ:
 			if !isConst(x.X) && !isConst(x.Y) {
 				b.g.Compares = append(b.g.Compares, site{A: b.val(x.X), B: b.val(x.Y), Kind: x.Op.String(), Pos: b.pos(x.Pos()), Fn: fn.String()})
+				// struct values: fields are tracked apart, so a comparison of two structs compares field with field
+				if _, isStruct := x.X.Type().Underlying().(*types.Struct); isStruct {
+					fx, fy := fieldNodes(b, x.X), fieldNodes(b, x.Y)
+					for i, a := range fx {
+						if c, ok := fy[i]; ok {
+							b.g.Compares = append(b.g.Compares, site{A: a, B: c, Kind: x.Op.String() + " (struct field)", Pos: b.pos(x.Pos()), Fn: fn.String()})
+						}
+					}
+				}
+			} else if x.Op == token.EQL || x.Op == token.NEQ {
+				// x^y compared with a constant before it has been folded into an accumulator carried round the loop
+				// (no phi between the xor and the test): a byte-wise test with an early exit, which is what a
+				// constant-time loop must not do. The folded form (acc |= x^y; test after the loop) passes through a phi.
+				v := x.X
+				if isConst(v) {
+					v = x.Y
+				}
+				if xr := unfoldedXor(v, 0); xr != nil && inLoop(x.Block()) {
+					b.g.Compares = append(b.g.Compares, site{A: b.val(xr.X), B: b.val(xr.Y), Kind: "xor tested inside the loop", Pos: b.pos(x.Pos()), Fn: fn.String()})
+				}
 			}
 		}
 	case *ssa.UnOp:
@@ -318,7 +417,7 @@ func (b *builder) call(fn *ssa.Function, ins ssa.CallInstruction, c *ssa.CallCom
 	}
 	if variableTime[name] && len(args) >= 2 {
 		b.g.Compares = append(b.g.Compares, site{A: b.val(args[0]), B: b.val(args[1]), Kind: name, Pos: pos, Fn: fn.String()})
-	} else if f, ok := c.Value.(*ssa.Function); ok && f.Pkg != nil && searchPkgs[f.Pkg.Pkg.Path()] && len(args) >= 2 {
+	} else if f, ok := originOf(c.Value); ok && f.Pkg != nil && searchPkgs[f.Pkg.Pkg.Path()] && len(args) >= 2 {
 		// any other function of the text-searching / comparing packages that is given BOTH values (Index, Count, Cut,
 		// Search, Match, Compare ...) inspects one against the other in data-dependent time
 		for i := 0; i < len(args); i++ {
@@ -438,6 +537,9 @@ func main() {
 	prog, _ := ssautil.AllPackages(pkgs, ssa.InstantiateGenerics)
 	prog.Build()
 	own := func(f *ssa.Function) bool {
+		if f != nil && f.Origin() != nil {
+			f = f.Origin() // an instance of a generic function belongs to the package of the generic function
+		}
 		if f == nil || f.Pkg == nil {
 			if f != nil && f.Parent() != nil {
 				p := f.Parent()
